@@ -60,6 +60,11 @@ CLAIMED = {
              "independent; accessors return copies.", ref="§6 C19",
              note="Trusted base: z3, symx, D-mode fixed-point rounding, lexsort/unique/isclose contract shims. static_hash/== (SHA-256) and coordinate "
              "look-ups by float tuples are outside the claim."),
+ "C18": dict(text="Bounded symbolic model checking of switch_device / switch_register: concrete programs (timing, EOM, retarget) on device A, "
+             "device B = A with channel parameters replaced by solver variables (min/max duration, phase-jump time, retarget times, amplitude and "
+             "detuning limits) or concrete variants (clock, bandwidth, EOM configuration, ids/order/reusability); strict=True must raise or return "
+             "the identical timeline for all parameter values, strict=False must satisfy every limit of B.", ref="§6 C18",
+             note="Trusted base: z3, symx, stubs in the evidence file. Finding F5 (custom_phase_jump_time / min_duration not compared) is reported as KNOWN-FINDING."),
  "C02": dict(text="Bounded symbolic model checking of the real _Schedule operations: one operation from an arbitrary state "
              "satisfying the representation invariant (inductive step), all times/durations/fall times/limits as solver variables; "
              "exhaustive over paths and values inside the stated slot-count/clock bounds.", ref="§6 C02, §5 L1"),
